@@ -137,7 +137,7 @@ class YannyClass:
         self.module = repo.module(YANNY)
         self.cls = repo.cls(YANNY, 'yanny')
         self.methods = {q.split('.', 1)[1]: f for q, f in self.module.funcs.items()
-                        if q.startswith('yanny.') and q.count('.') == 1}
+                        if q.startswith('yanny.') and q.count('.') == 1 and not (getattr(f, 'roles', None) or {}).get('inlined_helper')}
         self.direct = {m: direct_observable_writes(f.node) for m, f in self.methods.items()}
         self.self_calls = {}
         for m, f in self.methods.items():
